@@ -68,10 +68,15 @@ func listItems(prop, tier string) []Item {
 		if s.BoundSet {
 			b = s.Bound
 		}
-		items = append(items, Item{Kind: "sched", Name: s.Name, Bound: b, Shards: sh, BudgetS: budget})
+		mo := defaultMapOrder(s.Name)
+		items = append(items, Item{Kind: "sched", Name: s.Name, Bound: b, Shards: sh, BudgetS: budget, MapOrder: mo})
+		if tier == "thorough" {
+			// the thorough tier explores every scenario under a second map iteration order
+			items = append(items, Item{Kind: "sched", Name: s.Name, Bound: b, Shards: sh, BudgetS: budget, MapOrder: (mo + 1) % 3})
+		}
 	}
 	if len(schedScenarios(prop, tier))+len(raceScenarios(prop, tier)) > 0 {
-		items = append(items, Item{Kind: "race", Name: "race-pass", Shards: 1, BudgetS: budget})
+		items = append(items, Item{Kind: "race", Name: "race-pass", Shards: 1, BudgetS: budget, MapOrder: -1})
 	}
 	for _, j := range seqJobList(prop, tier) {
 		n := j.Shards
@@ -82,7 +87,7 @@ func listItems(prop, tier string) []Item {
 		if j.Controlled {
 			kind = "seqc"
 		}
-		items = append(items, Item{Kind: kind, Name: j.Name, Shards: n, BudgetS: budget})
+		items = append(items, Item{Kind: kind, Name: j.Name, Shards: n, BudgetS: budget, MapOrder: -1})
 	}
 	return items
 }
